@@ -21,7 +21,9 @@ RULE = ("battery class (ideal / two-stage continuous / two-stage stepwise) x noi
         "reassigned after construction); non-trivial = distinct (battery, operation list); a case is cut before the "
         "first operation whose `soc < transition_soc` test (stepwise + noise: the only discontinuous decision) is "
         "within 1e-9 of flipping, and skipped as ambiguous if that is the first operation; stream `sim`: real Simulator runs "
-        "(1-3 stations, sequential sessions with batteries of every class started near full / near the transition, "
+        "(1-3 stations with EVSE / DeadbandEVSE / FiniteRatesEVSE incl. the AeroVironment and ClipperCreek rate tables, the "
+        "get_evse_by_type factory and custom tables; sequential sessions with batteries of every class started empty .. full; "
+        "schedules of accepted pilots with 0 A pauses, on/off and round-robin time-sharing while an EV is connected; "
         "scripted non-negative pilots, noise through the patched numpy.random.normal), one case per station comparing "
         "the recorded pilot_signals / charging_rates rows and final EV energies with the station model")
 ASSUMPTIONS = ["theorems are over R (exact arithmetic, real exp); the implementation computes in IEEE doubles",
